@@ -1,14 +1,11 @@
 (** The statement skeletons of the run-time wrappers against which the hand-written model
-    (Model/Checker.v, Model/Run.v) was written, and the obligations that tie them to the skeletons
-    regenerated from /repo on this run (Gen/Generated.v):
-      - parity: each async wrapper/helper, with await erased, equals its sync twin (C13);
-      - pin: the sync skeletons are the ones the model mirrors (phase order, try/finally extent,
-        position of the re-entrancy shortcut: C01, C02, C08, C10, C11, C16, C03).
-    A change of the wrappers breaks a lemma here; that is not by itself a violation - it makes the
-    checks search for a failing input. *)
+    (Model/Checker.v, Model/Run.v) was written, pinned: a change of the wrappers in /repo breaks a
+    lemma here; that is not by itself a violation - it makes the checks search for a failing input.
+    (regenerate with harness/repin.py after reviewing the model against the new code) *)
 From ICV Require Import Base Generated.
 Open Scope string_scope.
 Open Scope list_scope.
+
 
 Definition pinned_checker : list string := [
   "kwargs_error = _assert_no_invalid_kwargs(kwargs=kwargs)";
@@ -18,9 +15,9 @@ Definition pinned_checker : list string := [
   "if in_progress is None:";
   "    in_progress = set()";
   "    _IN_PROGRESS.set(in_progress)";
+  "if id_func in in_progress:";
+  "    return func(*args, **kwargs)";
   "try:";
-  "    if id_func in in_progress:";
-  "        return func(*args, **kwargs)";
   "    in_progress.add(id_func)";
   "    preconditions, snapshots, postconditions = _unpack_pre_snap_posts(wrapper=wrapper)";
   "    resolved_kwargs = kwargs_from_call(args=args, kwargs=kwargs, kwdefaults=kwdefaults, param_names=param_names)";
@@ -32,7 +29,9 @@ Definition pinned_checker : list string := [
   "        raise violation_error";
   "    if postconditions and snapshots:";
   "        resolved_kwargs['OLD'] = _capture_old(resolved_kwargs=resolved_kwargs, snapshots=snapshots)";
+  "    in_progress.discard(id_func)";
   "    result = func(*args, **kwargs)";
+  "    in_progress.add(id_func)";
   "    if postconditions:";
   "        resolved_kwargs['result'] = result";
   "        violation_error = _assert_postconditions(postconditions=postconditions, resolved_kwargs=resolved_kwargs)";
